@@ -497,6 +497,8 @@ def probes(ctx, rng, gs, reps, thorough):
                 ctx.count(("nan", dim, n, nf, est, bins), hist=hist)
                 P.same("NaN in every field = removed points", "missing:nan", A, P.ve(tuple(pos), sel(fn), base, bin_edges=be, estimator=est), base, exact=True)
                 nd = float(rng.choice([-999.0, 0.5]))
+                f[np.isclose(f, nd)] += 1.0          # no accidental no_data value among the data (A is recomputed below)
+                A = P.ve(tuple(pos[:, ~m]), sel(f[:, ~m]), base, bin_edges=be, estimator=est)
                 fd = f.copy(); fd[:, m] = nd
                 ctx.count(("no_data", dim, n, nf, est, bins), hist=hist)
                 P.same("no_data in every field = removed points", "missing:no_data", A,
@@ -511,6 +513,14 @@ def probes(ctx, rng, gs, reps, thorough):
                 m3 = rng.random(size=(nf, n)) < 0.1
                 m4 = rng.random(size=(nf, n)) < 0.1
                 fmix = f.copy(); fmix[m3] = np.nan; fmix[m4 & ~m3] = nd
+                # field masks that differ between the fields (no mask argument) = NaN at exactly those values
+                fpm = f.copy(); fpm[m2] = np.nan
+                if not np.all(m2, axis=0).all():
+                    ctx.count(("per-field-mask", dim, n, nf, est, bins), hist=hist)
+                    P.same("masked values of single fields = NaN values", "missing:per-field-mask",
+                           P.ve(tuple(pos), sel(fpm), base, bin_edges=be, estimator=est),
+                           P.ve(tuple(pos), np.ma.array(sel(f), mask=sel(m2)), base, bin_edges=be, estimator=est),
+                           dict(base, m2=arr_desc(m2)), exact=True)
                 if not m1.all():
                     ctx.count(("mixed", dim, n, nf, est, bins), hist=hist)
                     B = P.ve(tuple(pos), np.ma.array(sel(fmix), mask=sel(m2)), base, bin_edges=be, estimator=est, no_data=nd, mask=m1)
@@ -655,7 +665,6 @@ def probes(ctx, rng, gs, reps, thorough):
                     nr = near
                     if bins == "default" and R is not None:
                         k = len(R[0])
-                        edges_rad = np.concatenate([[0.0], 2 * R[0][:1] if k else []])
                         edges_rad = np.linspace(0, (R[0][-1] + R[0][0]) if k else 0.0, k + 1)
                         nr = near_threshold(ll, edges_rad, latlon=True, eps=1e-10)
                     P.same("great-circle binning in a length unit = binning in radians after unit conversion", "latlon:geo_scale",
@@ -793,10 +802,10 @@ def run(ctx):
         corpus(ctx, gs)
         bad = []
         if drv is not None:
-            bad = correspondence(ctx, rng, gs, drv, 12000 if thorough else 1500, thorough)
+            bad = correspondence(ctx, rng, gs, drv, 40000 if thorough else 4000, thorough)
         t2 = time.time()
-        probes(ctx, rng, gs, 120 if thorough else 15, thorough)
-        axis_probes(ctx, rng, gs, 120 if thorough else 15)
+        probes(ctx, rng, gs, 400 if thorough else 40, thorough)
+        axis_probes(ctx, rng, gs, 400 if thorough else 40)
         ctx.notes.append("wall: proofs+driver build (incl. waiting for the shared build lock) %.0fs, correspondence %.0fs, probes %.0fs"
                          % (t1 - t0, t2 - t1, time.time() - t2))
         C.log("[C09] " + ctx.notes[-1])
